@@ -1,7 +1,7 @@
 (* C05 — lemmas, part G: the event index describes the chain. Invariants about the CONTENT of the
    persisted windows, the snapshot and the in-memory filter; their preservation by every batch; and the
    conclusion: a fresh process has no false negatives (index_covers). *)
-From Coq Require Import List NArith Bool Lia ZifyN ZifyNat ZifyBool.
+From Coq Require Import List NArith Bool Lia ZifyN ZifyNat ZifyBool PeanoNat.
 From V Require Import C05.Model C05.Proofs_A C05.Proofs_B C05.Proofs_C C05.Proofs_E C05.Proofs_F C05.Proofs_D.
 Import ListNotations.
 Open Scope N_scope.
@@ -509,4 +509,338 @@ Proof.
   - intros s Hsn. simpl in Hsn. inversion Hsn; subst s. split.
     + rewrite S2. unfold next_num. simpl. lia.
     + intros hb Hin Hf L3 L4. apply Hm; auto.
+Qed.
+
+(* ---------- the filter initialisation: fill ---------- *)
+Definition good_wr (W : N) (d : disk) (h : N) (w : wr) : Prop :=
+  exists a c, w = WWindow a (Some c) /\ a mod W = 0 /\ a + W - 1 <= h /\
+    forall x, In x (d_fam d FHeader) -> floor0 d <= b_num x -> a <= b_num x -> b_num x <= a + W - 1 -> ccol c x.
+
+Lemma fill_cover : forall W d h hbH, InvS W d h hbH -> forall cnt rf from, 0 < W ->
+  rf_from rf mod W = 0 -> rf_err rf = false -> rf_from rf <= from -> from <= rf_to W rf ->
+  (forall n, from <= n -> n <= h -> header d n <> None) ->
+  from + N.of_nat cnt = h + 1 ->
+  (forall x, In x (d_fam d FHeader) -> floor0 d <= b_num x -> rf_from rf <= b_num x -> b_num x < from ->
+             ccol (rf_cols rf) x) ->
+  (forall x, In x (d_fam d FHeader) -> floor0 d <= b_num x -> rf_from (rf_fill W d rf from cnt) <= b_num x ->
+             b_num x <= h -> ccol (rf_cols (rf_fill W d rf from cnt)) x)
+  /\ Forall (good_wr W d h) (rf_fill_w W d rf from cnt).
+Proof.
+  intros W d h hbH I. destruct I as [_ _ i_ent0 _ _ _].
+  induction cnt; intros rf from HW Ha He L1 L2 Hh Hc Hcov.
+  - simpl. split; [|constructor]. intros x Hx Hf L3 L4. apply Hcov; auto. lia.
+  - simpl. destruct (header d from) as [hbf|] eqn:Hd; [|exfalso; apply (Hh from); auto; lia].
+    assert (Hnf : b_num hbf = from). { apply find_num_some in Hd. tauto. }
+    assert (Huniq : forall x, In x (d_fam d FHeader) -> b_num x = from -> x = hbf).
+    { intros x Hx E. destruct (i_ent0 FHeader x Hx) as [_ Ag]. apply Ag. rewrite E. exact Hd. }
+    assert (Hcov' : forall x, In x (d_fam d FHeader) -> floor0 d <= b_num x -> rf_from rf <= b_num x ->
+                      b_num x < from + 1 -> ccol ((from, b_bloom hbf) :: rf_cols rf) x).
+    { intros x Hx Hf L3 L4. destruct (N.eq_dec (b_num x) from) as [E|E].
+      - rewrite (Huniq x Hx E). rewrite <- Hnf. apply ccol_cons_same.
+      - apply ccol_cons_mono. apply Hcov; auto. lia. }
+    unfold rf_insert. rewrite He.
+    replace ((from <? rf_from rf) || (rf_to W rf <? from)) with false
+      by (symmetry; apply orb_false_iff; split; apply N.ltb_ge; lia).
+    unfold rf_to in *.
+    destruct (from =? rf_from rf + W - 1) eqn:E.
+    + apply N.eqb_eq in E.
+      assert (Ha' : (from + 1) mod W = 0).
+      { replace (from + 1) with (rf_from rf + W) by lia. apply mod0_add; auto. }
+      destruct (IHcnt {| rf_from := from + 1; rf_cols := []; rf_next := from + 1; rf_err := false |} (from + 1) HW)
+        as [R1 R2]; cbn [rf_from rf_cols rf_err rf_to]; auto; try lia;
+        try (intros n A B; apply Hh; lia); try (intros x Hx Hf L3 L4; lia).
+      split; auto. constructor; auto.
+      exists (rf_from rf), ((from, b_bloom hbf) :: rf_cols rf). repeat split; auto; try lia.
+      intros x Hx Hf L3 L4. apply Hcov'; auto. lia.
+    + apply N.eqb_neq in E.
+      destruct (IHcnt {| rf_from := rf_from rf; rf_cols := (from, b_bloom hbf) :: rf_cols rf; rf_next := from + 1; rf_err := false |} (from + 1) HW)
+        as [R1 R2]; cbn [rf_from rf_cols rf_err rf_to]; auto; try lia;
+        try (intros n A B; apply Hh; lia); try (exact Hcov').
+Qed.
+
+Lemma fill_range_cover : forall W d h hbH, InvS W d h hbH -> forall rf from, 0 < W ->
+  rf_from rf mod W = 0 -> rf_err rf = false -> rf_from rf <= from -> from <= rf_to W rf -> from <= h + 1 ->
+  (forall n, from <= n -> n <= h -> header d n <> None) ->
+  (forall x, In x (d_fam d FHeader) -> floor0 d <= b_num x -> rf_from rf <= b_num x -> b_num x < from ->
+             ccol (rf_cols rf) x) ->
+  (forall x, In x (d_fam d FHeader) -> floor0 d <= b_num x -> rf_from (rf_fill_range W d rf from h) <= b_num x ->
+             b_num x <= h -> ccol (rf_cols (rf_fill_range W d rf from h)) x)
+  /\ Forall (good_wr W d h) (rf_fill_range_w W d rf from h).
+Proof.
+  intros. unfold rf_fill_range, rf_fill_range_w. eapply fill_cover; eauto. lia.
+Qed.
+
+(* what a fresh process computes covers the chain, and the windows it re-writes do too *)
+Lemma reinit_cover : forall W d, 0 < W -> consistent W d = true -> cont d = true -> IdxD W d ->
+  MemCover d (reinit W d) /\ forall h, d_height d = Some h -> Forall (good_wr W d h) (reinit_w W d).
+Proof.
+  intros W d HW Hc Hk [wc wk sn]. unfold reinit, reinit_w. destruct (d_height d) as [h|] eqn:Hh.
+  2:{ split; [|intros; discriminate]. intros x Hx. pose proof (proj1 (consistent_none W d Hh) Hc) as (_ & Hf & _).
+      rewrite Hf in Hx. destruct Hx. }
+  pose proof (proj1 (consistent_some W d h Hh) Hc) as [Hsn [hb I]].
+  pose proof (proj1 (cont_some d h Hh) Hk) as C.
+  pose proof (retained_headers W d h hb I C) as Hret.
+  pose proof I as [i_head0 i_full0 i_ent0 i_link0 i_state0 i_win0].
+  assert (Hle : forall x, In x (d_fam d FHeader) -> b_num x <= h).
+  { intros x Hx. destruct (i_ent0 FHeader x Hx). auto. }
+  assert (Hfl : floor0 d <= h).
+  { unfold floor0. destruct (floor d) as [f|] eqn:F; [|lia].
+    destruct (floor_attained d f F) as [y [Hy Hn]]. destruct (i_ent0 FCommit y Hy). lia. }
+  assert (Hnn : next_num d = h + 1). { unfold next_num. rewrite Hh. reflexivity. }
+  assert (Hrb : (forall x, In x (d_fam d FHeader) -> floor0 d <= b_num x -> rf_from (rf_rebuild W d h) <= b_num x ->
+                           ccol (rf_cols (rf_rebuild W d h)) x)
+                /\ Forall (good_wr W d h) (rf_rebuild_w W d h)).
+  { unfold rf_rebuild, rf_rebuild_w.
+    destruct (find_anchor W d (align W (floor0 d)) (align W h) (N.to_nat (align W h / W))) as [a|] eqn:E.
+    - assert (Hal : align W (floor0 d) <= align W h) by (apply align_mono; auto).
+      pose proof (find_anchor_ge W d _ _ _ _ HW (align_mod W _ HW) (align_mod W _ HW) Hal E) as Hge.
+      apply find_anchor_window in E as [c Hgw]. apply get_window_In in Hgw. apply i_win0 in Hgw as [M Lw].
+      destruct (align_le W (floor0 d) HW) as [_ Lf].
+      destruct (fill_range_cover W d h hb I (rf_new (a + W) (a + W)) (a + W) HW) as [R1 R2];
+        try (unfold rf_to, rf_new; cbn [rf_from]; lia); try (cbn [rf_from rf_err rf_new]; auto; lia);
+        try solve [unfold rf_new; cbn [rf_from]; apply mod0_add; auto];
+        try solve [intros n A B; apply Hret; lia];
+        try solve [unfold rf_new; cbn [rf_from rf_cols]; intros; lia].
+      all: try (split; auto; intros x Hx Hf L3; apply R1; auto).
+    - destruct (align_le W (floor0 d) HW) as [L1 L2].
+      destruct (fill_range_cover W d h hb I (rf_new (align W (floor0 d)) (floor0 d)) (floor0 d) HW) as [R1 R2];
+        try (unfold rf_to, rf_new; cbn [rf_from]; lia); try (cbn [rf_from rf_err rf_new]; auto; lia);
+        try solve [unfold rf_new; cbn [rf_from]; apply align_mod; auto];
+        try solve [intros n A B; apply Hret; lia];
+        try solve [unfold rf_new; cbn [rf_from rf_cols]; intros; lia].
+      all: try (split; auto; intros x Hx Hf L3; apply R1; auto). }
+  destruct Hrb as [Rb1 Rb2].
+  unfold snap_ok in Hsn. destruct (d_snap d) as [s|] eqn:Hs.
+  2:{ split; [exact Rb1|]. intros h0 X. inversion X; subst. exact Rb2. }
+  destruct (rf_wf_parts W s Hsn) as (S1 & S2 & S3 & S4).
+  destruct (sn s eq_refl) as [Ls Cs]. rewrite Hnn in Ls.
+  destruct (rf_next s =? h + 1) eqn:E1.
+  - apply N.eqb_eq in E1. split; [|intros h0 X; constructor].
+    intros x Hx Hf L3. apply Cs; auto. specialize (Hle x Hx). lia.
+  - destruct ((rf_next s <=? h) && (h <=? rf_to W s)) eqn:E2.
+    2:{ split; [exact Rb1|]. intros h0 X. inversion X; subst. exact Rb2. }
+    apply andb_true_iff in E2 as [E2 E3]. apply N.leb_le in E2. apply N.leb_le in E3.
+    destruct (fill_range_cover W d h hb I
+                {| rf_from := rf_from s; rf_cols := rf_cols s; rf_next := N.max (rf_next s) (floor0 d); rf_err := false |}
+                (N.max (rf_next s) (floor0 d)) HW) as [R1 R2];
+      try (unfold rf_to in *; cbn [rf_from]; lia); try (cbn [rf_from rf_err]; auto; lia);
+      try solve [intros n A B; apply Hret; lia];
+      try solve [cbn [rf_from rf_cols]; intros x Hx Hf L3 L4; apply Cs; auto; lia].
+    all: try (split; [|intros h0 X; inversion X; subst; exact R2]; intros x Hx Hf L3; apply R1; auto).
+Qed.
+
+(* one initialisation write keeps the index invariant and the fields the other writes refer to *)
+Lemma init_write_idx : forall W d0 h d w, IdxD W d -> good_wr W d0 h w ->
+  d_fam d FHeader = d_fam d0 FHeader -> d_fam d FCommit = d_fam d0 FCommit ->
+  IdxD W (apply_batch d [w]) /\ d_fam (apply_batch d [w]) FHeader = d_fam d0 FHeader /\
+  d_fam (apply_batch d [w]) FCommit = d_fam d0 FCommit /\ d_height (apply_batch d [w]) = d_height d /\
+  d_snap (apply_batch d [w]) = d_snap d.
+Proof.
+  intros W d0 h d w [wc wk sn] (a & c & -> & Ha & Hl & Hcv) EH EC.
+  split; [|simpl; auto].
+  assert (Hf : floor0 (apply_batch d [WWindow a (Some c)]) = floor0 d) by reflexivity.
+  assert (Hf0 : floor0 d = floor0 d0) by (rewrite !floor0_is, EC; reflexivity).
+  constructor.
+  - intros a' c' x Hg Hx Hfl L3 L4. destruct (N.eq_dec a' a) as [->|Hne].
+    + rewrite gw_put_same in Hg. inversion Hg; subst c'. apply Hcv; auto.
+      * change (In x (d_fam d FHeader)) in Hx. rewrite EH in Hx. exact Hx.
+      * rewrite Hf, Hf0 in Hfl. exact Hfl.
+    + rewrite gw_put_other in Hg by auto. eapply wc; eauto.
+  - intros x Hx Hfl Lk. destruct (N.eq_dec (align W (b_num x)) a) as [->|Hne].
+    + rewrite gw_put_same. discriminate.
+    + rewrite gw_put_other by auto. apply wk; auto.
+  - intros s Hsn. apply sn. exact Hsn.
+Qed.
+
+(* ---------- the run ---------- *)
+Definition IdxGood (W : N) (st : disk * rfilter) : Prop :=
+  Good W st /\ IdxD W (fst st) /\ MemCover (fst st) (snd st).
+
+Lemma init_writes_idx : forall W d0 h ws d, IdxD W d -> Forall (good_wr W d0 h) ws ->
+  d_fam d FHeader = d_fam d0 FHeader -> d_fam d FCommit = d_fam d0 FCommit ->
+  forall j, let d' := apply_batches d (firstn j (map (fun w => [w]) ws)) in
+    IdxD W d' /\ d_fam d' FHeader = d_fam d0 FHeader /\ d_fam d' FCommit = d_fam d0 FCommit.
+Proof.
+  induction ws; intros d Hi Hg EH EC j; destruct j; simpl; auto.
+  inversion Hg; subst.
+  destruct (init_write_idx W d0 h d a Hi H1 EH EC) as (I' & A & B & _).
+  apply IHws; auto.
+Qed.
+
+Lemma reorg_none_same : forall W d m h m', 0 < W -> mem_sync W d m = true -> d_height d = Some h ->
+  rf_reorg W d m = (None, m') -> m' = m.
+Proof.
+  intros W d m h m' HW Hs Hh Hr. destruct (sync_parts W d m Hs) as (S1 & S2 & S3).
+  assert (Hnext : next_num d = h + 1). { unfold next_num. rewrite Hh. reflexivity. }
+  rewrite Hnext in S2, S3. unfold rf_reorg in Hr. rewrite S1, S2 in Hr.
+  replace (h + 1 =? 0) with false in Hr by (symmetry; apply N.eqb_neq; lia).
+  replace (h + 1 - 1) with h in Hr by lia.
+  destruct ((0 <? rf_from m) && (h + 1 =? rf_from m)) eqn:Cnd.
+  - destruct (get_window d (align W h)); inversion Hr. reflexivity.
+  - assert (Hle : rf_from m <= h).
+    { destruct (align_le W (h + 1) HW). apply andb_false_iff in Cnd as [Cn|Cn].
+      - apply N.ltb_ge in Cn. lia.
+      - apply N.eqb_neq in Cn. lia. }
+    replace ((h <? rf_from m) || (rf_to W m <? h)) with false in Hr; [inversion Hr|].
+    symmetry. apply orb_false_iff. destruct (align_le W (h + 1) HW).
+    split; [apply N.ltb_ge; lia|]. unfold rf_to. apply N.ltb_ge. lia.
+Qed.
+
+(* every batch prefix of every operation keeps the disk part of the index invariant; after the whole
+   operation the memory part holds again *)
+Lemma op_idx : forall W st o, 0 < W -> IdxGood W st -> op_env (fst st) o = true -> op_fresh (fst st) o = true ->
+  (forall j, IdxD W (apply_batches (fst st) (firstn j (fst (plan W o (fst st) (snd st)))))) /\
+  MemCover (fst (step W st o)) (snd (step W st o)).
+Proof.
+  intros W [d m] o HW [HG [Hi Hm]] Henv Hfr. pose proof HG as (Hc & Hk & Hs). cbn [fst snd] in *.
+  assert (Hnil : forall j, IdxD W (apply_batches d (firstn j (@nil batch)))). { intros j. destruct j; exact Hi. }
+  assert (Hone : forall x : batch, IdxD W (apply_batch d x) -> forall j, IdxD W (apply_batches d (firstn j [x]))).
+  { intros x Hx j. destruct (firstn_single x j) as [E|E]; rewrite E; simpl; auto. }
+  unfold step. destruct o; cbn [plan fst snd].
+  - (* Store *)
+    destruct (succession_ok d b) eqn:Hsu; [|split; auto].
+    destruct (rf_insert W m (b_num b) (b_bloom b)) as [[ws m']|] eqn:Hins; [|split; auto].
+    destruct (store_idx W d m b ws m' HW Hc Hs Hi Hm Hsu Hins) as [X Y]. cbn [fst snd apply_batches fold_left].
+    split; auto.
+  - (* Revert *)
+    destruct (d_height d) as [h|] eqn:Hh; [|split; auto].
+    destruct (find_num h (d_fam d FSU)); [|split; auto].
+    destruct (header d h) as [hb|] eqn:Hd; [|split; auto].
+    destruct (rf_reorg W d m) as [[ws|] m'] eqn:Hr; cbn [fst snd apply_batches fold_left].
+    + destruct (revert_idx W d m h hb ws m' HW Hc Hs Hi Hm Hh Hd Henv Hfr Hr) as [X Y]. split; auto.
+    + rewrite (reorg_none_same W d m h m' HW Hs Hh Hr). split; auto.
+  - (* Prune *)
+    unfold op_env in Henv. destruct (d_height d) as [h|] eqn:Hh.
+    + apply N.leb_le in Henv.
+      pose proof (prune_plan_wr W d keep_hist e h Henv) as P1. rewrite Forall_forall in P1.
+      pose proof (prune_plan_shape W d keep_hist e) as P2. rewrite Forall_forall in P2.
+      pose proof (prune_plan_shape2 W d keep_hist e) as P3. rewrite Forall_forall in P3.
+      assert (Hall : forall j, (DiskAt W h (apply_batches d (firstn j (prune_plan W d keep_hist e)))) /\
+                               IdxD W (apply_batches d (firstn j (prune_plan W d keep_hist e))) /\
+                               MemCover (apply_batches d (firstn j (prune_plan W d keep_hist e))) m).
+      { apply (batches_inv (fun x => DiskAt W h x /\ IdxD W x /\ MemCover x m)); [|split; [split; [split|]|split]; auto].
+        intros b Hin d' [[[Hc' Hk'] Hh'] [Hi' Hm']].
+        pose proof (proj1 (consistent_some W d' h Hh') Hc') as [Hsn [hb I]].
+        destruct (prune_batch_InvS W h hb b d' I (P1 b Hin)) as (I' & A & B).
+        assert (Hc'' : consistent W (apply_batch d' b) = true).
+        { apply (proj2 (consistent_some W _ h (eq_trans A Hh'))). split; eauto.
+          unfold snap_ok in *. rewrite B. exact Hsn. }
+        split; [split; [split|congruence]|]; auto.
+        - destruct (P2 b Hin) as [Hf| ->]; [rewrite hc_free_cont; auto|eapply prune_data_cont; eauto].
+        - destruct (P3 b Hin) as [Hf| ->].
+          + destruct (hk_only_fields b d' Hf) as (F1 & F2 & F3 & F4 & F5). split.
+            * apply (idx_fields_eq W d'); auto.
+            * apply (mem_fields_eq d'); auto.
+          + apply (prune_data_idx W e d' h m); auto. }
+      split; [intros j; apply Hall|].
+      specialize (Hall (length (prune_plan W d keep_hist e))). rewrite firstn_all in Hall. apply Hall.
+    + pose proof (proj1 (consistent_none W d Hh) Hc) as (_ & Hf & _ & _).
+      unfold prune_plan, floor. rewrite Hf. split; auto.
+  - (* SetL1 *)
+    split; [apply Hone; apply (idx_fields_eq W d); auto|]. simpl. apply (mem_fields_eq d); auto.
+  - (* Snapshot *)
+    destruct (rf_err m); [split; auto|]. split.
+    + apply Hone. apply snap_idx; auto.
+    + simpl. apply (mem_fields_eq d); auto.
+  - (* Restart *)
+    set (bs0 := if graceful && negb (rf_err m) then [[WSnap m]] else []).
+    set (d1 := apply_batches d bs0).
+    assert (Hd1 : DiskOK W d1 /\ IdxD W d1 /\ d_height d1 = d_height d).
+    { subst d1 bs0. destruct (graceful && negb (rf_err m)); cbn [apply_batches fold_left]; [|split; [split|]; auto].
+      split; [split|split; [|reflexivity]].
+      - apply snap_consistent; auto. eapply sync_wf; eauto.
+      - rewrite hc_free_cont; auto. repeat constructor.
+      - apply snap_idx; auto. }
+    destruct Hd1 as [[Hc1 Hk1] [Hi1 Hh1]].
+    destruct (reinit_cover W d1 HW Hc1 Hk1 Hi1) as [Rm Rw].
+    assert (Hws : exists h, Forall (good_wr W d1 h) (reinit_w W d1)).
+    { destruct (d_height d1) as [h|] eqn:Hh; [exists h; apply Rw; auto|].
+      exists 0. unfold reinit_w. rewrite Hh. constructor. }
+    destruct Hws as [h Hws].
+    split.
+    + intros j. rewrite firstn_app, apply_batches_app.
+      destruct (Nat.leb (length bs0) j) eqn:Lj.
+      * apply Nat.leb_le in Lj. rewrite firstn_all2 by auto. fold d1.
+        apply (init_writes_idx W d1 h (reinit_w W d1) d1 Hi1 Hws eq_refl eq_refl).
+      * apply Nat.leb_gt in Lj. replace (j - length bs0)%nat with O by lia. simpl.
+        subst bs0. destruct (graceful && negb (rf_err m)); simpl in Lj; [|lia].
+        assert (j = O) by lia. subst j. simpl. exact Hi.
+    + rewrite apply_batches_app. fold d1.
+      pose proof (init_writes_idx W d1 h (reinit_w W d1) d1 Hi1 Hws eq_refl eq_refl
+                    (length (map (fun w => [w]) (reinit_w W d1)))) as X.
+      rewrite firstn_all in X. destruct X as (_ & F1 & F2).
+      apply (mem_fields_eq d1); auto.
+Qed.
+
+Lemma step_idx : forall W st o, 0 < W -> IdxGood W st -> op_env (fst st) o = true -> op_fresh (fst st) o = true ->
+  IdxGood W (step W st o).
+Proof.
+  intros W st o HW HI He Hf. destruct (op_idx W st o HW HI He Hf) as [A B].
+  destruct HI as [HG _]. split; [apply step_good; auto|split; auto].
+  specialize (A (length (fst (plan W o (fst st) (snd st))))). rewrite firstn_all in A.
+  unfold step. destruct (plan W o (fst st) (snd st)); exact A.
+Qed.
+
+Lemma crash_idx : forall W ops k st, 0 < W -> IdxGood W st ->
+  ops_env W ops st = true -> ops_fresh W ops st = true -> IdxD W (crash_disk W ops k st).
+Proof.
+  induction ops; simpl; intros k st HW HI He Hf; [apply HI|].
+  apply andb_true_iff in He as [E1 E2]. apply andb_true_iff in Hf as [F1 F2].
+  destruct (Nat.leb (length (fst (plan W a (fst st) (snd st)))) k).
+  - apply IHops; auto. apply step_idx; auto.
+  - apply (op_idx W st a HW HI E1 F1).
+Qed.
+
+(* ---------- the invariants give the boolean predicate ---------- *)
+Lemma covers_of_inv : forall W d m, 0 < W -> consistent W d = true -> mem_sync W d m = true ->
+  IdxD W d -> MemCover d m -> covers W d m = true.
+Proof.
+  intros W d m HW Hc Hs [wc wk sn] Hm. destruct (sync_parts W d m Hs) as (S1 & S2 & S3).
+  destruct (below_next W d Hc) as [Hlt _].
+  unfold covers. rewrite S1. simpl. apply forallb_forall. intros hb Hin.
+  apply filter_In in Hin as [Hin Hf]. apply N.leb_le in Hf.
+  specialize (Hlt FHeader hb Hin). destruct (align_le W (next_num d) HW) as [L1 L2].
+  destruct ((rf_from m <=? b_num hb) && (b_num hb <=? rf_to W m)) eqn:E.
+  - apply andb_true_iff in E as [E1 _]. apply N.leb_le in E1. apply ccol_forallb. apply Hm; auto.
+  - assert (Lb : b_num hb < rf_from m).
+    { apply andb_false_iff in E as [E|E]; [apply N.leb_gt in E; auto|]. apply N.leb_gt in E. unfold rf_to in E. lia. }
+    destruct (align_le W (b_num hb) HW) as [L3 L4].
+    assert (Hk : align W (b_num hb) + W - 1 < next_num d).
+    { assert (align W (b_num hb) < rf_from m) by lia.
+      pose proof (mult_gap W (rf_from m) (align W (b_num hb)) HW ltac:(rewrite S3; apply align_mod; auto)
+                   (align_mod W _ HW) H). lia. }
+    pose proof (wk hb Hin Hf Hk) as Hw.
+    destruct (get_window d (align W (b_num hb))) as [c|] eqn:G; [|contradiction].
+    apply ccol_forallb. apply (wc (align W (b_num hb)) c hb); auto.
+Qed.
+
+Lemma singles_flat : forall ws d, apply_batches d (map (fun w => [w]) ws) = apply_batch d ws.
+Proof. induction ws; simpl; intros; auto. Qed.
+
+(* the empty database satisfies everything *)
+Lemma idx_init : forall W, IdxD W disk0 /\ MemCover disk0 rf0.
+Proof.
+  intros W. split; [constructor|unfold MemCover]; simpl; intros; simpl in *; try contradiction; try discriminate.
+Qed.
+
+(* no event false negatives after a crash *)
+Lemma index_covers_general : forall W d, 0 < W -> consistent W d = true -> cont d = true -> IdxD W d ->
+  index_covers W d = true.
+Proof.
+  intros W d HW Hc Hk Hi. unfold index_covers.
+  pose proof (recover_good W d rf0 HW (conj Hc Hk)) as HG.
+  assert (HI : IdxGood W (d, rf0) \/ True) by (right; exact I). clear HI.
+  (* the recovery is the operation Restart false; its index invariant follows from op_idx on a state whose
+     memory part is irrelevant: re-derive it directly *)
+  destruct (reinit_cover W d HW Hc Hk Hi) as [Rm Rw].
+  assert (Hws : exists h, Forall (good_wr W d h) (reinit_w W d)).
+  { destruct (d_height d) as [h|] eqn:Hh; [exists h; apply Rw; auto|].
+    exists 0. unfold reinit_w. rewrite Hh. constructor. }
+  destruct Hws as [h Hws].
+  pose proof (init_writes_idx W d h (reinit_w W d) d Hi Hws eq_refl eq_refl
+                (length (map (fun w => [w]) (reinit_w W d)))) as X.
+  rewrite firstn_all, singles_flat in X. destruct X as (I' & F1 & F2).
+  unfold step in HG. cbn [plan fst snd andb apply_batches fold_left app] in HG.
+  rewrite singles_flat in HG. destruct HG as (C' & K' & S').
+  apply covers_of_inv; auto. apply (mem_fields_eq d); auto.
 Qed.
